@@ -288,6 +288,26 @@ def generate(g, h):
         return 'redirectport_v4' in ns and 'redirectport_v6' in ns
     g.boolean('DNS_SEARCH_SKIPS_REDIRECT_PORTS', dns_skips_redirect)
 
+    def family_by_colon():
+        """helpers.family_ip_tuple: `if ':' in ip: return (AF_INET6, ip) else: return (AF_INET, ip)`."""
+        helpers_tree = h.parse('sshuttle/helpers.py')
+        f = h.func(helpers_tree, 'family_ip_tuple')
+        st = [x for x in f.body if not (isinstance(x, ast.Expr) and isinstance(x.value, ast.Constant))]
+        if len(st) != 1 or not isinstance(st[0], ast.If):
+            return False
+        t = st[0].test
+        if not (isinstance(t, ast.Compare) and isinstance(t.left, ast.Constant) and t.left.value == ':' and
+                len(t.ops) == 1 and isinstance(t.ops[0], ast.In) and isinstance(t.comparators[0], ast.Name)):
+            return False
+
+        def fam_of(stmts):
+            if len(stmts) == 1 and isinstance(stmts[0], ast.Return) and isinstance(stmts[0].value, ast.Tuple):
+                e = stmts[0].value.elts[0]
+                return e.attr if isinstance(e, ast.Attribute) else None
+            return None
+        return fam_of(st[0].body) == 'AF_INET6' and fam_of(st[0].orelse) == 'AF_INET'
+    g.boolean('FAMILY_IP_TUPLE_BY_COLON', family_by_colon)
+
     def dns_check_before_print():
         parent = None
         for n in ast.walk(main):
